@@ -228,8 +228,9 @@ func main() {
 			continue
 		}
 		ops, cleanup := s.mk()
+		stuck := false
 		for i := range ops {
-			for j := i; j < len(ops); j++ {
+			for j := i; j < len(ops) && !stuck; j++ {
 				pairs++
 				fmt.Fprintf(os.Stderr, "PAIR %s %s %s\n", s.name, ops[i].name, ops[j].name)
 				var wg sync.WaitGroup
@@ -250,11 +251,22 @@ func main() {
 				select {
 				case <-done:
 				case <-time.After(20 * time.Second):
+					// the subject is wedged (a deadlock is not a data race; C12 / C07 decide those): leave it and go on
 					fmt.Fprintf(os.Stderr, "STUCK %s %s %s\n", s.name, ops[i].name, ops[j].name)
+					stuck = true
 				}
 			}
 		}
-		cleanup()
+		if stuck {
+			continue
+		}
+		cdone := make(chan struct{})
+		go func() { cleanup(); close(cdone) }()
+		select {
+		case <-cdone:
+		case <-time.After(20 * time.Second):
+			fmt.Fprintf(os.Stderr, "STUCK %s cleanup\n", s.name)
+		}
 	}
 	fmt.Printf("racer: %d pairs x %d iterations\n", pairs, *iters)
 }
